@@ -102,7 +102,9 @@ def translate():
     # ---- pass loop
     body = norm(between(cg, r"pub fn codegen\(\s*ast: Arc<ParseTree>,\s*options: CodegenOptions,\s*\) -> \(Option<CodegenContext>, Diagnostics\) \{",
                         r"\n\}\n", "codegen()"))
-    need(r"#\[cfg\(not\(test\)\)\] const MAX_ITERATIONS: usize = usize::MAX;", body, "MAX_ITERATIONS")
+    # C06 (add24f8): a pass cap; the model's pass_loop mirrors it (running out of passes = "did not converge")
+    m = need(r"#\[cfg\(not\(test\)\)\] const MAX_ITERATIONS: usize = (\d+);", body, "MAX_ITERATIONS")
+    out["max_iterations"] = int(m.group(1))
     need(r"let mut prev_undefined = HashSet::new\(\); let mut prev_errors = Diagnostics::default\(\)\.with_code_map\(&ctx\.tree\.code_map\); "
          r"let mut errors = Diagnostics::default\(\)\.with_code_map\(&ctx\.tree\.code_map\); ctx\.pass_idx = 0; "
          r"while ctx\.pass_idx != MAX_ITERATIONS \{", body, "pass loop head")
@@ -123,6 +125,9 @@ def translate():
     out["unknown_needs_nonempty"] = "true" if m.group(2).startswith("!ctx.undefined.is_empty()") else "false"
     need(r"return \(Some\(ctx\), e\); \} prev_undefined = std::mem::take\(&mut ctx\.undefined\); \} \} \} "
          r"prev_errors = errors; errors = Diagnostics::default\(\)\.with_code_map\(&ctx\.tree\.code_map\); ctx\.next_pass\(\); \} "
+         # C06 (add24f8): leaving the loop through the cap returns prev_errors + "did not converge" (modelled in model/PassLoop.v)
+         r"(?:if ctx\.pass_idx == MAX_ITERATIONS \{ let mut errors = prev_errors; errors\.push\(Diagnostic::error\(\)\.with_message\(format!\( "
+         r"\"the program did not converge after \{\} passes\", MAX_ITERATIONS \)\)\); return \(Some\(ctx\), errors\); \} )"
          r"if let Err\(e\) = ctx\.finalize\(\) \{ errors\.extend\(e\); \} \(Some\(ctx\), errors\)$", loop_, "pass loop tail")
     np = norm(between(cg, r"fn next_pass\(&mut self\) \{", r"\n    \}", "next_pass"))
     # (`self.analysis.clear();` concerns the language-server analysis only, which the assembler model does not carry)
@@ -203,7 +208,7 @@ def translate():
     lines = ["(* GENERATED by translate/t_codegen.py from mos-core/src/codegen/{mod,segment}.rs. DO NOT EDIT. *)",
              "From Coq Require Import ZArith.", "Open Scope Z_scope."]
     for k in ["segment_default_initial_pc", "segment_default_target_address", "emit_start_limit", "emit_end_limit", "default_pc",
-              "loop_first_index", "align_padding_cap"]:
+              "loop_first_index", "align_padding_cap", "max_iterations"]:
         lines.append("Definition %s : Z := %d." % (k, out[k]))
     for k in ["segment_default_write", "stop_needs_no_new_symbols", "unknown_needs_nonempty"]:
         lines.append("Definition %s : bool := %s." % (k, out[k]))
